@@ -243,3 +243,40 @@ func VT_C17_CancelsRemainingMembers() {
 	vt.NoLeak()
 	vt.Reach("done")
 }
+
+// The remaining members are cancelled once the outcome is DECIDED, not before: with Most (2 members) or Any
+// (2 members) one failure decides nothing, so a member that honours its context and finishes later still counts.
+func VT_C17_NoEarlyCancel() {
+	strategy := []ExecutionStrategy{ExecutionStrategyMost, ExecutionStrategyAny}[vt.Choose("strategy", 2)]
+	e0 := vt.Err("e0")
+	m1 := vt.Msg("m1")
+	release := make(chan struct{})
+	cancelledEarly := false
+	failer := func(ctx context.Context) (proto.Message, error) { return nil, e0 }
+	late := func(ctx context.Context) (proto.Message, error) {
+		select {
+		case <-ctx.Done():
+			cancelledEarly = true
+			return nil, ctx.Err()
+		case <-release:
+			return m1, nil
+		}
+	}
+	var res []proto.Message
+	var err error
+	done := make(chan struct{})
+	go func() {
+		defer close(done)
+		res, err = Execute(context.Background(), strategy, []Member{failer, late})
+	}()
+	vt.Settle() // the failure has been taken in; the outcome is still open
+	close(release)
+	<-done
+	vt.Assert(!cancelledEarly, "member-not-cancelled-before-the-outcome-is-decided")
+	vt.Assert(err == nil, "one-failure-of-two-does-not-fail-most-or-any")
+	if err == nil && len(res) == 2 {
+		vt.Assert(res[1] == m1, "late-member-result-at-its-own-index")
+	}
+	vt.NoLeak()
+	vt.Reach("done")
+}
